@@ -24,50 +24,57 @@ theorem bankSend_inv (hauth : auth.lookup m = some k) {w w' : World} {src : Acct
           have i2 : TxInv m k d w1 w2 := inv_debit_other i1.has hs h2
           exact (i1.trans i2).trans (inv_credit i2.has h)
 
-theorem sink_update_inv {w : World} (hh : Has m k w) (f : Nat → Int) :
-    TxInv m k d w { w with sink := f } :=
+theorem setSink_inv {w : World} (hh : Has m k w) (realm : Nat) (n : Int) :
+    TxInv m k d w (setSink w realm n) :=
   TxInv.of_same hh rfl rfl (Int.le_refl _)
+
+theorem lockDeposit_inv (hauth : auth.lookup m = some k) {w w' : World} {caller : Nat} {req : Int}
+    (hh : Has m k w) (h : lockDeposit auth w caller req = .ok w') : TxInv m k d w w' := by
+  unfold lockDeposit at h
+  cases h1 : hookDeduct auth w (.m caller) (ugnot req) with
+  | error e => simp [h1] at h
+  | ok w1 =>
+    simp only [h1] at h
+    unfold bankSendUnrestricted at h
+    cases h2 : debit w1 (.m caller) (ugnot req) with
+    | error e => simp [h2, bind, Except.bind] at h
+    | ok w2 =>
+      simp only [h2, bind, Except.bind] at h
+      cases h3 : credit w2 none (ugnot req) with
+      | error e => simp [h3] at h
+      | ok w3 =>
+        simp only [h3] at h
+        cases h
+        by_cases hc : caller = m
+        · subst hc
+          have i1 := inv_hook_debit_self (d := d) hh hauth h1 h2
+          exact i1.trans (inv_credit i1.has h3)
+        · have hne : Acct.m caller ≠ Acct.m m := fun e => hc (by cases e; rfl)
+          have i1 := inv_hook_other (d := d) hh hne h1
+          have i2 := inv_debit_other (d := d) i1.has hne h2
+          exact (i1.trans i2).trans (inv_credit i2.has h3)
+
+theorem refundDeposit_inv {w w' : World} {caller : Nat} {amt : Int}
+    (hh : Has m k w) (h : refundDeposit w caller amt = .ok w') : TxInv m k d w w' := by
+  unfold refundDeposit at h
+  cases h3 : credit w (some (.m caller)) (ugnot amt) with
+  | error e => simp [h3] at h
+  | ok w3 =>
+    simp only [h3] at h
+    cases h
+    exact inv_credit hh h3
 
 theorem storageDeposit_inv (hauth : auth.lookup m = some k) {w w' : World} {caller realm : Nat} {n : Int}
     (hh : Has m k w) (h : storageDeposit auth w caller realm n = .ok w') : TxInv m k d w w' := by
   unfold storageDeposit at h
   simp only at h
-  have i0 : TxInv m k d w { w with sink := fun j => if j == realm then n else w.sink j } :=
-    sink_update_inv hh _
+  have i0 : TxInv m k d w (setSink w realm n) := setSink_inv hh realm n
   split at h
   · split at h
     · cases h
-    · cases h1 : hookDeduct auth { w with sink := fun j => if j == realm then n else w.sink j } (.m caller)
-          (ugnot ((n - w.sink realm) * Gen.C16.storagePrice)) with
-      | error e => simp [h1] at h
-      | ok w1 =>
-        simp only [h1] at h
-        unfold bankSendUnrestricted at h
-        cases h2 : debit w1 (.m caller) (ugnot ((n - w.sink realm) * Gen.C16.storagePrice)) with
-        | error e => simp [h2, bind, Except.bind] at h
-        | ok w2 =>
-          simp only [h2, bind, Except.bind] at h
-          cases h3 : credit w2 none (ugnot ((n - w.sink realm) * Gen.C16.storagePrice)) with
-          | error e => simp [h3] at h
-          | ok w3 =>
-            simp only [h3] at h
-            cases h
-            by_cases hc : caller = m
-            · subst hc
-              have i1 := inv_hook_debit_self (d := d) i0.has hauth h1 h2
-              exact (i0.trans i1).trans (inv_credit i1.has h3)
-            · have hne : Acct.m caller ≠ Acct.m m := fun e => hc (by cases e; rfl)
-              have i1 := inv_hook_other (d := d) i0.has hne h1
-              have i2 := inv_debit_other (d := d) i1.has hne h2
-              exact ((i0.trans i1).trans i2).trans (inv_credit i2.has h3)
+    · exact i0.trans (lockDeposit_inv hauth i0.has h)
   · split at h
-    · cases h3 : credit { w with sink := fun j => if j == realm then n else w.sink j } (some (.m caller))
-          (ugnot (-(n - w.sink realm) * Gen.C16.storagePrice)) with
-      | error e => simp [h3] at h
-      | ok w3 =>
-        simp only [h3] at h
-        cases h
-        exact i0.trans (inv_credit i0.has h3)
+    · exact i0.trans (refundDeposit_inv i0.has h)
     · cases h; exact i0
 
 /-- the three auth messages are exactly the ones with route "auth" -/
@@ -79,12 +86,10 @@ theorem alwaysDenied_auth (msg : Msg) :
 theorem createSession_spec {w w' : World} {src key : Nat} {e p : Int} {l : Coins} {ps : List String}
     (h : createSession w src key e p l ps = .ok w') :
     lookupSess w.sess (src, key) = none ∧
-    w' = { w with sess := setSess w.sess (src, key)
-      { expiresAt := e, limit := l, period := p, used := [], reset := w.now, paths := ps, seq := 0 } } := by
+    w' = { w with sess := setSess w.sess (src, key) (newSession e p l ps w.now) } := by
   unfold createSession at h
   repeat (split at h; · cases h)
   rename_i hdup _ _ _ _ _
-  simp only at h
   cases h
   refine ⟨?_, rfl⟩
   cases hl : lookupSess w.sess (src, key) with
@@ -160,7 +165,7 @@ theorem execMsg_inv (hauth : auth.lookup m = some k) {w w' : World} {msg : Msg}
     cases h
     refine TxInv.of_same hh rfl ?_ (Int.le_refl _)
     rw [lookup_filter_master]
-    simp only [if_neg (fun e' => hsrc e'.symm)]
+    simp only [if_neg (fun (e' : (m, k).1 = src) => hsrc e'.symm)]
 
 theorem execMsgs_inv (hauth : auth.lookup m = some k) {msgs : List Msg} {w w' : World}
     (hh : Has m k w) (hden : ∀ msg ∈ msgs, msg.signer = m → alwaysDenied msg = false)
@@ -189,10 +194,12 @@ theorem bumpSeq_inv {w : World} (hh : Has m k w) (i : Nat) : TxInv m k d w (bump
       by_cases hk : (m, k) = (i, k')
       · cases hk
         obtain ⟨s0, hl, hw⟩ := hh
-        rw [hl] at hs; cases hs
-        refine ⟨rfl, s0, { s0 with seq := s0.seq + 1 }, hl, by simp [lookup_setSess], ?_, ?_⟩
+        have hs' : s = s0 := Option.some.inj (hs.symm.trans hl)
+        subst hs'
+        refine ⟨rfl, s, { s with seq := s.seq + 1 }, hl, by simp [lookup_setSess], ?_, ?_⟩
         · exact ⟨⟨rfl, rfl, rfl, rfl⟩, ⟨hw.used, hw.limit, hw.le⟩, Or.inl ⟨rfl, rfl⟩⟩
-        · have : U { s0 with seq := s0.seq + 1 } w.now d = U s0 w.now d := U_congr rfl rfl rfl d
+        · have : U { s with seq := s.seq + 1 } w.now d = U s w.now d :=
+            U_congr (s := s) (s' := { s with seq := s.seq + 1 }) rfl rfl rfl d
           simp only [this]
           exact Int.le_refl _
       · refine TxInv.of_same hh rfl ?_ (Int.le_refl _)
